@@ -1,7 +1,7 @@
 (* Tree/LoadProofs.v — C11, load half: which errors load_buffer can return and what a rejected load leaves behind.
      * errors of the merge stage are InvalidFileMerge only; the overlap check is the only source of OverlappingDataError
      * a load rejected for a duplicate file name or by the parser returns the world it started from
-     * a load rejected by the overlap check (which runs before anything is modified since fix 9d6ce2a) changes nothing
+     * a load rejected by the overlap check (which runs before anything is modified since fix b692965) changes nothing
        that existed: the nodes of the parsed tree were allocated beyond the old bound and are dead
        (Observe.obs_eq_upto_garbage)
    The merge stage is NOT effect free on failure: see LoadProofsRefuted.v. *)
